@@ -65,6 +65,26 @@ func (r *Runner) RunHistory(histNo int, o HistOpts) error {
 			r.GraphStepBatch(r.GenInsertBatch())
 		case o.InsertOnly:
 			r.InsertBatch()
+		case o.Graph && b == 1 && !r.Cfg.NoUpdates:
+			// points that are stored without their vector and get it later, all in one update request that lists
+			// them against the order of their creation: the graph index learns of several new nodes above its
+			// recorded maximum, the largest first
+			pv := r.G.Cfg.PVec
+			r.G.Cfg.PVec = 1e-9
+			var late []GenPoint
+			for _, id := range r.pickFresh(4) {
+				late = append(late, r.gen(id, false, 0.8))
+			}
+			r.G.Cfg.PVec = pv
+			r.GraphStepBatch(Batch{Kind: "insert", Pts: late})
+			var upd []GenPoint
+			for i := len(late) - 1; i >= 0; i-- {
+				if r.believedLive[late[i].ID] {
+					upd = append(upd, r.gen(late[i].ID, true, 1.0))
+				}
+			}
+			r.GraphStepBatch(Batch{Kind: "update", Pts: upd})
+			insertOnly = false
 		case o.Graph:
 			if r.GraphStepBatch(r.GenBatch()) != "insert" {
 				insertOnly = false
